@@ -21,8 +21,13 @@ variable values and delimiters.  Three classes are recorded findings of the real
 (KNOWN_FINDINGS.txt), appear below as hypotheses of the `…_partial` theorems and have a
 `…_counterexample` each:
   * `isTitled sc.name` for Python (Python pastes the scope name as written),
-  * `plainTokens sc.pfx` (and a plain delimiter): static prefix tokens are pasted into format
-    strings / string literals,
+  * `safeTokens l sc` (inside `SafeScope`, with a plain delimiter): static prefix tokens are
+    pasted into format strings / string literals. The class is EXACT per language and per
+    "has variables" (`hazard`): Go/Java `"` `\` always and `%` only with variables; Python `'` `\`
+    always and `{` `}` only with variables; Dart `'` `\` `$` always and `%` only with variables;
+    everything else — e.g. `%` in a variable-free prefix — is covered by the theorems
+    (`c08_novar_prefix_verbatim_partial`, `c08_percent_without_variables`). `PlainScope`
+    (`plainTokens`: none of these characters) implies `SafeScope l` for every `l`,
   * `dartSafe sc.pfx delim` for Dart: `$user` followed by a delimiter such as "__" is read by
     Dart as the identifier `user__`.
 `c08_go_delim_unfixed_counterexample` keeps the witness of the defect repaired in the Go
@@ -67,7 +72,7 @@ def LangOk (l : Lang) (sc : Scope) (delim : Str) : Prop :=
   (l = .dart → dartSafe sc.pfx delim = true ∧ sc.vars.Nodup ∧ sc.vars.all identOk = true)
 
 theorem c08_topic_eval_partial (l : Lang) (r : Role) (sc : Scope) (vals : List Str) (delim op : Str)
-    (h : PlainScope sc delim)
+    (h : SafeScope l sc delim)
     (hd : l = .dart → dartSafe sc.pfx delim = true ∧ sc.vars.Nodup ∧ sc.vars.all identOk = true) :
     evalTopic l r sc vals delim op =
       some (specWith (if l.isPython then sc.name else title sc.name) sc vals delim op) := by
@@ -80,12 +85,12 @@ theorem c08_topic_eval_partial (l : Lang) (r : Role) (sc : Scope) (vals : List S
     simp [specWith, prefixVal]
   have hpre : eval ⟨vals, delim, op, sc.name⟩ (prefixTmpl l sc delim) = some (prefixVal sc vals delim) := by
     cases l with
-    | go => exact prefixPct_eval _ sc delim h
-    | java => exact prefixPct_eval _ sc delim h
+    | go => exact prefixPct_eval .go (Or.inl rfl) _ sc delim h
+    | java => exact prefixPct_eval .java (Or.inr rfl) _ sc delim h
     | dart => exact prefixDart_eval _ sc delim h (hd rfl).2.1 (hd rfl).2.2 (hd rfl).1
-    | py => exact prefixPy_eval _ sc delim h
-    | pyAsyncio => exact prefixPy_eval _ sc delim h
-    | pyTornado => exact prefixPy_eval _ sc delim h
+    | py => exact prefixPy_eval .py rfl _ sc delim h
+    | pyAsyncio => exact prefixPy_eval .pyAsyncio rfl _ sc delim h
+    | pyTornado => exact prefixPy_eval .pyTornado rfl _ sc delim h
   unfold evalTopic tmpl
   apply key _ _ _ hpre
   cases l <;> cases r <;> simp [pubTopic, subTopic, eval, evalSeg, Lang.isPython]
@@ -95,7 +100,7 @@ three recorded findings (plain static tokens and delimiter; for Python a capital
 name; for Dart no variable glued to an identifier-like delimiter, distinct variable names that
 passed the parser's identifier check). -/
 theorem c08_matches_spec_partial (l : Lang) (r : Role) (sc : Scope) (vals : List Str) (delim op : Str)
-    (h : PlainScope sc delim) (hl : LangOk l sc delim) :
+    (h : SafeScope l sc delim) (hl : LangOk l sc delim) :
     evalTopic l r sc vals delim op = some (spec sc vals delim op) := by
   rw [c08_topic_eval_partial l r sc vals delim op h hl.2]
   cases hp : l.isPython with
@@ -107,30 +112,78 @@ theorem c08_matches_spec_partial (l : Lang) (r : Role) (sc : Scope) (vals : List
 
 /-- All languages (and both roles) give the same string.  PARTIAL: same hypotheses. -/
 theorem c08_languages_agree_partial (l₁ l₂ : Lang) (r₁ r₂ : Role) (sc : Scope) (vals : List Str)
-    (delim op : Str) (h : PlainScope sc delim) (h₁ : LangOk l₁ sc delim) (h₂ : LangOk l₂ sc delim) :
+    (delim op : Str) (s₁ : SafeScope l₁ sc delim) (s₂ : SafeScope l₂ sc delim)
+    (h₁ : LangOk l₁ sc delim) (h₂ : LangOk l₂ sc delim) :
     evalTopic l₁ r₁ sc vals delim op = evalTopic l₂ r₂ sc vals delim op := by
-  rw [c08_matches_spec_partial l₁ r₁ sc vals delim op h h₁, c08_matches_spec_partial l₂ r₂ sc vals delim op h h₂]
+  rw [c08_matches_spec_partial l₁ r₁ sc vals delim op s₁ h₁, c08_matches_spec_partial l₂ r₂ sc vals delim op s₂ h₂]
 
 /-- Go, Java and Dart agree with each other and with the spec whatever the capitalisation of
 the scope name. PARTIAL: plain tokens / delimiter, the Dart side condition. -/
 theorem c08_go_java_dart_agree_partial (sc : Scope) (vals : List Str) (delim op : Str) (r : Role)
-    (h : PlainScope sc delim)
+    (hg : SafeScope .go sc delim) (hj : SafeScope .java sc delim) (hs : SafeScope .dart sc delim)
     (hd : dartSafe sc.pfx delim = true ∧ sc.vars.Nodup ∧ sc.vars.all identOk = true) :
     evalTopic .go r sc vals delim op = some (spec sc vals delim op) ∧
     evalTopic .java r sc vals delim op = some (spec sc vals delim op) ∧
     evalTopic .dart r sc vals delim op = some (spec sc vals delim op) := by
   refine ⟨?_, ?_, ?_⟩
-  · exact c08_matches_spec_partial .go r sc vals delim op h ⟨by simp [Lang.isPython], by simp⟩
-  · exact c08_matches_spec_partial .java r sc vals delim op h ⟨by simp [Lang.isPython], by simp⟩
-  · exact c08_matches_spec_partial .dart r sc vals delim op h ⟨by simp [Lang.isPython], fun _ => hd⟩
+  · exact c08_matches_spec_partial .go r sc vals delim op hg ⟨by simp [Lang.isPython], by simp⟩
+  · exact c08_matches_spec_partial .java r sc vals delim op hj ⟨by simp [Lang.isPython], by simp⟩
+  · exact c08_matches_spec_partial .dart r sc vals delim op hs ⟨by simp [Lang.isPython], fun _ => hd⟩
 
 /-- Python (vanilla, asyncio, tornado) always produces the as-written reading of the spec:
 prefix and delimiters are right, only the capitalisation differs.  PARTIAL: plain tokens. -/
 theorem c08_python_matches_raw_partial (l : Lang) (hl : l.isPython = true) (r : Role) (sc : Scope)
-    (vals : List Str) (delim op : Str) (h : PlainScope sc delim) :
+    (vals : List Str) (delim op : Str) (h : SafeScope l sc delim) :
     evalTopic l r sc vals delim op = some (specRaw sc vals delim op) := by
   rw [c08_topic_eval_partial l r sc vals delim op h (by cases l <;> simp [Lang.isPython] at hl <;> simp)]
   simp [hl, specRaw]
+
+def opEC : Str := ['E','v','e','n','t','C','r','e','a','t','e','d']
+
+/-- The language-independent hypothesis (no format / quoting character in any static token)
+implies the exact per-language one. -/
+theorem c08_plain_is_safe (sc : Scope) (delim : Str) (h : PlainScope sc delim) (l : Lang) :
+    SafeScope l sc delim := h.safe' l
+
+/-- A prefix WITHOUT variables is pasted as it is written, in every language: the topic is the
+prefix string, the delimiter, the scope name, the delimiter, the operation. The only characters
+that matter on this path are the quote of the target's string literal and the backslash (and `$`
+for Dart) — in particular `%`, `{`, `}` are plain text (the seeded change C08-m6 breaks exactly
+this for Dart). PARTIAL: `SafeScope` = the exact class of the recorded finding; Python as written. -/
+theorem c08_novar_prefix_verbatim_partial (l : Lang) (r : Role) (sc : Scope) (vals : List Str)
+    (delim op : Str) (h : SafeScope l sc delim) (hv : sc.vars = []) :
+    evalTopic l r sc vals delim op =
+      some ((if sc.pfx = [] then [] else sc.pfxStr ++ delim) ++
+            ((if l.isPython then sc.name else title sc.name) ++ (delim ++ op))) := by
+  have hd : l = .dart → dartSafe sc.pfx delim = true ∧ sc.vars.Nodup ∧ sc.vars.all identOk = true := by
+    intro _
+    have hall := novars_all sc.pfx (by rw [← vars_eq sc h.wf]; exact hv)
+    refine ⟨?_, by simp [hv], by simp [hv]⟩
+    have : lastIsVar sc.pfx = false := by
+      generalize sc.pfx = ts at hall
+      induction ts with
+      | nil => rfl
+      | cons t ts ih =>
+        cases ts with
+        | nil => simpa [lastIsVar] using hall t (by simp)
+        | cons u us => simpa [lastIsVar] using ih (fun x hx => hall x (by simp [hx]))
+    simp [dartSafe, this]
+  rw [c08_topic_eval_partial l r sc vals delim op h hd]
+  have hall := novars_all sc.pfx (by rw [← vars_eq sc h.wf]; exact hv)
+  simp only [specWith, (novars_prefix [] vals sc.pfx hall).2, Scope.pfxStr]
+
+/-- the witness of the seeded change C08-m6: `scope Events prefix load%50.stats` -/
+def pctScope : Scope := ⟨['E','v','e','n','t','s'], [.word ['l','o','a','d','%','5','0'], .word ['s','t','a','t','s']]⟩
+
+/-- `%` in a static token of a variable-free prefix is NOT in the finding's class: every language
+(Dart included) gives `load%50.stats.Events.EventCreated`, although `plainTokens` fails. -/
+theorem c08_percent_without_variables :
+    plainTokens pctScope.pfx = false ∧ (∀ l, SafeScope l pctScope ['.']) ∧
+    ∀ l r, evalTopic l r pctScope [] ['.'] opEC =
+      some (['l','o','a','d','%','5','0','.','s','t','a','t','s','.','E','v','e','n','t','s','.'] ++ opEC) := by
+  refine ⟨by decide, ?_, ?_⟩
+  · intro l; cases l <;> exact ⟨by decide, by decide, by decide⟩
+  · intro l r; cases l <;> cases r <;> decide
 
 /-! ### From the public API inwards: arguments, parameters, forwarding -/
 
@@ -166,7 +219,7 @@ theorem c08_entry_pub_eq_sub (l : Lang) (e : Entry) (sc : Scope) (args : List St
 /-- topic(entry point, args) = spec(args) for every entry point of every language. PARTIAL: the
 hypotheses of `c08_matches_spec_partial` (recorded findings) plus distinct variable names. -/
 theorem c08_entry_matches_spec_partial (l : Lang) (e : Entry) (sc : Scope) (args : List Str)
-    (delim op : Str) (h : PlainScope sc delim) (hl : LangOk l sc delim)
+    (delim op : Str) (h : SafeScope l sc delim) (hl : LangOk l sc delim)
     (hnd : sc.vars.Nodup) (hlen : args.length = sc.vars.length) :
     entryTopic l e sc args delim op = some (spec sc args delim op) := by
   unfold entryTopic
@@ -181,7 +234,6 @@ theorem c08_forwarding_swap_counterexample :
 /-! ### Counterexamples: the recorded findings and the repaired defect, on their witnesses -/
 
 def evScope : Scope := ⟨['e','v','e','n','t','s'], []⟩
-def opEC : Str := ['E','v','e','n','t','C','r','e','a','t','e','d']
 
 /-- known/c08_python_scope_title.frugal: `scope events`: Python `events.EventCreated`,
 Go `Events.EventCreated`. -/
@@ -198,6 +250,10 @@ def bill : Str := ['b','i','l','l']
 prefix as text and one variable, although the tokens are grammatical. -/
 theorem c08_format_chars_counterexample :
     (∀ t ∈ fmtScope.pfx, t.wf = true) ∧ plainTokens fmtScope.pfx = false ∧
+    safeTokens .go fmtScope = false ∧ safeTokens .java fmtScope = false ∧ safeTokens .dart fmtScope = false ∧
+    -- … and Python, whose format uses braces, is outside the class and right:
+    safeTokens .pyTornado fmtScope = true ∧
+    evalTopic .pyTornado .pub fmtScope [bill] ['.'] opEC = some (spec fmtScope [bill] ['.'] opEC) ∧
     evalTopic .go .pub fmtScope [bill] ['.'] opEC = none ∧
     evalTopic .java .sub fmtScope [bill] ['.'] opEC = none ∧
     evalTopic .dart .pub fmtScope [bill] ['.'] opEC = none ∧
